@@ -118,7 +118,7 @@ theorem upd_other {β : Type} (m : Nat → Option β) {k x : Nat} (v : β) (h : 
     upd m k v x = m x := by
   simp [upd, h]
 
-@[simp] theorem improves_none (t : α) : improves t none = true := rfl
+@[simp] theorem improves_none (t : α) : improves t none = true := LawfulLit.belowInf_eq t
 
 @[simp] theorem improves_some (t ex : α) : improves t (some ex) = true ↔ t < ex := by
   simp [improves]
